@@ -243,13 +243,19 @@ func (vc *FnVC) unop(x *ssa.UnOp) {
 		}
 		vc.setVal(x, vc.loadLV(lv, vc.cur))
 		vc.assumeLoaded(vc.vals[x], x.Type())
+		vc.assumeNonNilField(x)
+		if _, isIdx := x.X.(*ssa.IndexAddr); isIdx {
+			vc.assumeNonNilElem(vc.vals[x], x.Type())
+		}
 		vc.e.assumption["the heap is closed under reachability: every reference read from memory, passed in or returned by a callee denotes an allocated object"] = true
 	case token.NOT:
 		vc.setVal(x, not(vc.val(x.X)))
 	case token.SUB:
 		vc.setVal(x, app("-", vc.val(x.X)))
 	case token.ARROW:
-		vc.regionBoundary("recv")
+		vc.callOrd["recv"]++
+		vc.siteAsserts("recv", vc.callOrd["recv"], vc.cur, []TV{{t: vc.val(x.X), ty: x.X.Type()}}, x.Pos())
+		vc.cur = vc.applyCallGhostsX("recv", []TV{{t: vc.val(x.X), ty: x.X.Type()}}, nil, vc.cur, nil)
 		t := vc.declare(vc.e.fresh("recv"), vc.e.sortOf(x.X.Type().Underlying().(*types.Chan).Elem()))
 		if x.CommaOk {
 			ok := vc.declare(vc.e.fresh("recvok"), "Bool")
@@ -500,10 +506,19 @@ func (vc *FnVC) typeAssert(x *ssa.TypeAssert) {
 		okT := vc.define(x.Name()+"$ok", "Bool", ok)
 		v := vc.define(x.Name()+"$v", vc.e.sortOf(x.AssertedType), app("ite", okT, vc.e.fromAny(x.AssertedType, a), vc.e.zero(x.AssertedType)))
 		vc.tuples[x] = []Term{v, okT}
+		if vc.cf != nil {
+			for _, n := range vc.cf.NonNil {
+				if n == "elem "+vc.e.typeKey(x.AssertedType) && vc.e.sortOf(x.AssertedType) == "Int" {
+					vc.assume(okT, not(app("=", v, "0")))
+					vc.trustedUsed["nonnil "+n+" (trusted fact)"] = true
+				}
+			}
+		}
 		return
 	}
 	vc.safety("assert", ok, x.Pos(), fmt.Sprintf("type assertion to %s", x.AssertedType))
 	vc.setVal(x, vc.e.fromAny(x.AssertedType, a))
+	vc.assumeNonNilElem(vc.vals[x], x.AssertedType)
 }
 
 func (vc *FnVC) lookup(x *ssa.Lookup) {
@@ -520,10 +535,26 @@ func (vc *FnVC) lookup(x *ssa.Lookup) {
 	d, vl, _ := vc.e.mapComps(mt)
 	has := app("select", app("select", vc.cur.get(d), m), k)
 	v := app("ite", has, app("select", app("select", vc.cur.get(vl), m), k), vc.e.zero(mt.Elem()))
+	if !x.CommaOk && vc.cf != nil {
+		for _, n := range vc.cf.NonNil {
+			if n == "elem "+vc.e.typeKey(mt.Elem()) && vc.e.sortOf(mt.Elem()) == "Int" {
+				vc.assume(has, not(app("=", app("select", app("select", vc.cur.get(vl), m), k), "0")))
+				vc.trustedUsed["nonnil "+n+" (trusted fact)"] = true
+			}
+		}
+	}
 	if x.CommaOk {
 		okT := vc.define(x.Name()+"$ok", "Bool", has)
 		vT := vc.define(x.Name()+"$v", vc.e.sortOf(mt.Elem()), v)
 		vc.tuples[x] = []Term{vT, okT}
+		if vc.cf != nil {
+			for _, n := range vc.cf.NonNil {
+				if n == "elem "+vc.e.typeKey(mt.Elem()) && vc.e.sortOf(mt.Elem()) == "Int" {
+					vc.assume(okT, not(app("=", vT, "0")))
+					vc.trustedUsed["nonnil "+n+" (trusted fact)"] = true
+				}
+			}
+		}
 		return
 	}
 	vc.setVal(x, v)
@@ -548,6 +579,14 @@ func (vc *FnVC) next(x *ssa.Next) {
 	v := vc.define(x.Name()+"$v", vc.e.sortOf(mt.Elem()), app("select", app("select", vc.cur.get(vl), m), k))
 	vc.cur = vc.cur.update(c, app("ite", okT, app("store", vis, k, "true"), vis))
 	vc.tuples[x] = []Term{okT, k, v}
+	if vc.cf != nil {
+		for _, n := range vc.cf.NonNil {
+			if n == "elem "+vc.e.typeKey(mt.Elem()) && vc.e.sortOf(mt.Elem()) == "Int" {
+				vc.assume(okT, not(app("=", v, "0")))
+				vc.trustedUsed["nonnil "+n+" (trusted fact)"] = true
+			}
+		}
+	}
 }
 
 func (vc *FnVC) ret(x *ssa.Return) {
@@ -753,7 +792,15 @@ func (vc *FnVC) runDefersAtRecover() {
 			}
 		}
 		before := vc.cur
+		vc.lastCalleeGhosts = nil
 		vc.call(d, nil)
+		// the recover block is only entered when a deferred call's recover() returned non-nil: with a single
+		// recovering defer site, that call recovered (its ghost `recovered`, if the contract declares one, is true)
+		if len(sites) == 1 {
+			if g, ok := vc.lastCalleeGhosts["callee_recovered"]; ok {
+				vc.assume(vc.b(), g.t)
+			}
+		}
 		if !certain {
 			g := vc.declare(vc.e.fresh("deferred"), "Bool")
 			vc.cur = joinMems(vc.e, vc.emit, []*Mem{vc.cur, before}, []Term{g, not(g)})
@@ -827,4 +874,52 @@ func freeVarWritten(fn *ssa.Function, idx int, depth int) bool {
 		}
 	}
 	return false
+}
+
+// assumeNonNilField: `nonnil pkg.Type.Field` declarations (trusted facts about third-party data, e.g. which AST pointers
+// the graphql-go parser always sets) apply whenever that field is loaded.
+func (vc *FnVC) assumeNonNilField(x *ssa.UnOp) {
+	fa, ok := x.X.(*ssa.FieldAddr)
+	if !ok || vc.cf == nil || len(vc.cf.NonNil) == 0 {
+		return
+	}
+	pt, ok := fa.X.Type().Underlying().(*types.Pointer)
+	if !ok {
+		return
+	}
+	named, ok := pt.Elem().(*types.Named)
+	if !ok {
+		return
+	}
+	key := named.Obj().Pkg().Name() + "." + named.Obj().Name() + "." + pt.Elem().Underlying().(*types.Struct).Field(fa.Field).Name()
+	for _, n := range vc.cf.NonNil {
+		if n == key {
+			t := vc.vals[x]
+			if vc.e.sortOf(x.Type()) == "Any" {
+				vc.assume("true", not(app("=", t, "anil")))
+			} else if vc.e.sortOf(x.Type()) == "Int" {
+				vc.assume("true", not(app("=", t, "0")))
+			}
+			vc.trustedUsed["nonnil "+key+" (trusted fact about third-party data)"] = true
+		}
+	}
+}
+
+// assumeNonNilElem: `nonnil elem T` declarations: values of pointer type T obtained from slice elements, map values,
+// type switches/assertions and range iteration are never nil (trusted facts, e.g. the graphql-go parser never stores nil nodes).
+func (vc *FnVC) assumeNonNilElem(t Term, ty types.Type) {
+	if vc.cf == nil || len(vc.cf.NonNil) == 0 {
+		return
+	}
+	key := "elem " + vc.e.typeKey(ty)
+	for _, n := range vc.cf.NonNil {
+		if n == key {
+			if vc.e.sortOf(ty) == "Int" {
+				vc.assume("true", not(app("=", t, "0")))
+			} else if vc.e.sortOf(ty) == "Any" {
+				vc.assume("true", not(app("=", t, "anil")))
+			}
+			vc.trustedUsed["nonnil "+key+" (trusted fact)"] = true
+		}
+	}
 }
